@@ -7,12 +7,13 @@ import common
 from common import Broken, sh
 
 BUCKETS = ["balance", "fee", "stake", "unstaking", "withdrawable", "undelegating", "reward_claim", "reward_withdrawing",
-           "proposal_fund", "delegated"]
+           "proposal_fund", "delegated", "validator_reward_matured", "validator_reward_withdrawn", "validator_reward_interval"]
 STEPKIND = {0: "BeginBlock", 1: "DeliverTx", 2: "EndBlock"}
 
 # monitor classes of LedgerCheck.step_viol
 C02_CLASSES = {1: "transaction-increased-a-currency-total", 2: "BeginBlock-increased-a-total-beyond-the-accrual-allowance",
-               3: "EndBlock-increased-a-total", 4: "block-increased-a-total-beyond-its-allowance", 5: "negative-stored-amount"}
+               3: "EndBlock-increased-a-total", 4: "block-increased-a-total-beyond-its-allowance", 5: "negative-stored-amount",
+               8: "transaction-raised-a-validator-reward-claim"}
 C03_CLASSES = {6: "holdings-decreased-across-a-block-without-authority", 7: "holdings-decreased-in-a-step-without-authority"}
 T_NEGFUND = "C02.proposal_fund_negative"
 T_STALE = "C02.finalize_stale_fund_records"
@@ -57,6 +58,8 @@ def describe_step(case, si):
             d[k] = s[k]
     d["changed_records"] = [{"owner": case["owners"][u["o"]], "bucket": BUCKETS[u["b"]], "currency": case["curs"][u["c"]],
                              "sub": u["s"], "new_amount": u["amt"]} for u in s["upd"]]
+    d["changed_reward_claim_records"] = [{"validator": case["owners"][u["o"]], "bucket": BUCKETS[u["b"]], "sub": u["s"], "new_amount": u["amt"]}
+                                         for u in s.get("side") or []]
     d["authority"] = [case["owners"][i] for i in s.get("auth") or []]
     return d
 
@@ -68,6 +71,8 @@ def payload(case, si, cl, a, b, names):
         d["currency"], d["increase"] = case["curs"][a] if a < len(case["curs"]) else a, str(b)
     elif cl in (5, 15, 25):
         d["owner"], d["bucket"] = case["owners"][a], BUCKETS[b]
+    elif cl == 8:
+        d["validator"], d["increase"] = case["owners"][a], str(b)
     else:
         d["owner"], d["currency"] = case["owners"][a], case["curs"][b] if b < len(case["curs"]) else b
     # replayable input: the history up to and including the block of the offending step
@@ -106,6 +111,34 @@ def judge(ctx, cases, mon, corr, mine, known, names):
     return stats
 
 
+def adversarial_tables(cases):
+    """Which value-moving kind received which adversarial amount class / currency, and what the application answered."""
+    import re
+    amt, cur = {}, {}
+    for c in cases:
+        for st in c["steps"]:
+            m = re.match(r'adv (\S+) amount (\S+) currency "(.*)"$', st.get("descr") or "")
+            if st["kind"] != 1 or not m:
+                continue
+            kind, cls, cu = m.groups()
+            res = "accepted" if st["ok"] else "refused"
+            a = amt.setdefault(kind, {}).setdefault(cls, {"accepted": 0, "refused": 0})
+            a[res] += 1
+            b = cur.setdefault(kind, {}).setdefault(cu if cu else "(empty)", {"accepted": 0, "refused": 0})
+            b[res] += 1
+    return {
+        "adversarial_amount_classes_by_kind": amt,
+        "adversarial_currencies_by_kind": cur,
+        "adversarial_kinds_not_fed": "ETH_LOCK / ETH_REDEEM / ERC20 lock+redeem and BTC (amounts live inside the embedded external transaction; "
+                                     "they need a configured chain driver - adversarial amounts and exact mint/burn are C15's check), OLVM value "
+                                     "transfers beyond the generated ones (C17), bid external app; PROPOSAL_CREATE/FUND/WITHDRAW_FUNDS (eligible "
+                                     "and not eligible proposal), all four network delegation kinds, ONS create/renew/purchase/send/sell, SENDPOOL "
+                                     "(bounty and delegation pool), SEND, STAKE/UNSTAKE/WITHDRAW (ordinary and self-staked) and WITHDRAW_REWARD "
+                                     "(real validator with matured rewards) receive every class of the series in OLT and a thinner series in "
+                                     "ETH / unregistered / empty currency",
+    }
+
+
 def extra_specs(ctx):
     """Replays of all recorded C02/C03 findings (known and fixed alike) and the corpus run as ordinary cases."""
     specs = []
@@ -140,7 +173,7 @@ def run(ctx, props, mine, known, names, what):
     cov.update({
         "evaluations": rep["steps"], "distinct_nontrivial": rep["distinct_cases"],
         "rule": "whole-application runs (real app.App through ABCI, Replica): replays of the recorded findings (all fixed: expected to HOLD) + 7 witnesses (incl. several unstakes of one delegator in one block through maturity and withdrawal; a self-staking candidate with a foreign public key + junk in signature slot 0) + the 5 directed "
-                "scenarios + adversarial-amount histories (22 value-moving kinds incl. self-staked STAKE/UNSTAKE/WITHDRAW; per kind also signature lists with a foreign key + junk in the first / last slot at a high fee price; x amounts {-2^64,-1,0,1,base-1,base,base+1,2^63-1,2^63,2^64,"
+                "scenarios + adversarial-amount histories (22 value-moving kinds incl. self-staked STAKE/UNSTAKE/WITHDRAW; per kind also signature lists with a foreign key + junk in the first / last slot at a high fee price; x amounts {-2^64,-1,0,1,base-1,base,base+1,2^63-1,2^63,2^64-2,2^64,"
                 "2^64+1,10^40} relative to the observed source record x currencies {OLT,ETH,unregistered,empty}; every address field replaced by "
                 "other accounts, signed by the rightful signers / the attacker / the named account) + seeded random histories over ~35 kinds incl. OLVM "
                 "(genHistory); evaluations = ABCI steps (BeginBlock, DeliverTx, EndBlock) whose decoded ledger change was judged by the monitors; "
@@ -162,6 +195,7 @@ def run(ctx, props, mine, known, names, what):
         "samples": rep["samples"],
         "explanation": what,
     })
+    cov.update(adversarial_tables(cases))
     if rep["unknown_keys"] or rep["undecodable_values"]:
         raise Broken("the decoder met state records it does not recognise (the ledger would be incomplete)",
                      json.dumps({"unknown": rep["unknown_keys"][:20], "undecodable": rep["undecodable_values"][:20]}))
